@@ -122,23 +122,39 @@ def mk_value(s):
 TYPES = {}
 
 
+def _raising_str(self):
+    raise RuntimeError("this exception cannot be rendered")
+
+
 def mk_exc(spec):
     # one class object per (name, base) for the whole run: classifiers must be functions of the exception, so answers may
     # not depend on which classifier saw an exception type first (per-type caches, registries)
     shadow = spec.get("args_attr")
-    key = (spec["name"], spec["base"], shadow is not None)
-    if key not in TYPES:
-        # with "args_attr" the type defines `args` itself (as a dataclass with a field of that name does): instances then keep
-        # whatever is assigned to it
-        TYPES[key] = type(spec["name"], (BASES[spec["base"]],), {"args": None} if shadow is not None else {})
-    cls = TYPES[key]
+    own = {}
+    if shadow is not None:
+        # the type defines `args` itself (as a dataclass with a field of that name does): instances then keep whatever is
+        # assigned to it
+        own["args"] = None
+    if spec.get("cls_level"):
+        # status / status_code / code / sqlstate live on the type (class constants; a property or a slot reads the same way)
+        own.update({k: mk_value(v) for k, v in spec["attrs"].items()})
+    if spec.get("str_raises"):
+        own["__str__"] = own["__repr__"] = _raising_str      # classifiers look at attributes and args, never at the rendering
+    if spec.get("cls_level") or spec.get("str_raises"):
+        cls = type(spec["name"], (BASES[spec["base"]],), own)
+    else:
+        key = (spec["name"], spec["base"], shadow is not None)
+        if key not in TYPES:
+            TYPES[key] = type(spec["name"], (BASES[spec["base"]],), own)
+        cls = TYPES[key]
     e = cls()
     if shadow is None:
         e.args = tuple(mk_value(a) for a in spec["args"])     # OSError subclasses rearrange constructor arguments
     else:
         e.args = [mk_value(a) for a in spec["args"]] if shadow["t"] == "list_of_args" else mk_value(shadow)
-    for k, v in spec["attrs"].items():
-        setattr(e, k, mk_value(v))
+    if not spec.get("cls_level"):
+        for k, v in spec["attrs"].items():
+            setattr(e, k, mk_value(v))
     return e
 
 
